@@ -533,6 +533,16 @@ func MarshalYAML(n syntax.Node) (*yaml.Node, syntax.Diagnostics) {
 		if originalValue != value {
 			yamlNode.Value = value
 		}
+		// yaml.v3 writes an unquoted string that contains a line feed as a block scalar, and mangles block scalars
+		// whose text starts with a line break (the break is dropped) or a tab (the output cannot be read back).
+		// Write such strings double-quoted.
+		if yamlNode.Style&(yaml.SingleQuotedStyle|yaml.DoubleQuotedStyle) == 0 && strings.Contains(value, "\n") {
+			for _, prefix := range []string{"\n", "\t", "\u2028", "\u2029"} {
+				if strings.HasPrefix(value, prefix) {
+					yamlNode.Style = yamlNode.Style&^(yaml.LiteralStyle|yaml.FoldedStyle) | yaml.DoubleQuotedStyle
+				}
+			}
+		}
 	case *syntax.ArrayNode:
 		if yamlNode.Kind != yaml.SequenceNode && yamlNode.Kind != yaml.DocumentNode {
 			yamlNode.Kind = yaml.SequenceNode
